@@ -79,7 +79,7 @@ class CHECK(core.Check):
     PARTIAL = ["schedules off the dyadic grid (e.g. Exchangent's own RedoTimeout = 0.1): the theorems are about exact time; "
                "there the Float (binary64) instantiation of the same generic definitions (gstep/grun, proved equal to the "
                "model at Int: C38_generic_definitions_at_int_are_the_model) is compared bit for bit with the code, and the "
-               "oracle makes no claim within 1e-9 s of a boundary (IEEE rounding decides there)",
+               "oracle evaluates the same statement in binary64 (.stop = .start + .duration, expired when stamp >= .stop)",
                "process() on an exchange without a device raises AttributeError from the log call's format arguments; "
                "not part of the property, not modelled"]
     TECHNIQUE = ("Lean 4 theorems (invariant of the running phase by induction over the call sequence; refinement to the "
@@ -345,14 +345,11 @@ class CHECK(core.Check):
         ops = case["ops"]
         if len(out) != len(ops):
             return "implementation answered %d of %d calls" % (len(out), len(ops))
-        from fractions import Fraction
         flt = bool(case.get("float"))
-        # float cases: the oracle reasons in exact rationals about the exact values of the floats and makes no claim
-        # about a process call closer than EPS to a boundary (there the outcome is a matter of IEEE rounding, which
-        # the correspondence with the Float instantiation of the model pins bit for bit)
-        EPS = Fraction(1, 10 ** 9)
-        DEFS = ({"e": (Fraction(2), Fraction(1, 2)), "x": (Fraction(2), Fraction(1, 2)),
-                 "n": (Fraction(1, 2), Fraction(0.1))} if flt else DEF)
+        # float cases: the same statement evaluated in binary64, the way StoreTimer documents it (.stop = .start +
+        # .duration, expired when the stamp has reached .stop; the clock is advanced by float addition): the oracle adds and
+        # compares the very floats of the case, so a boundary decided by IEEE rounding is a definite claim as well
+        DEFS = ({"e": (2.0, 0.5), "x": (2.0, 0.5), "n": (0.5, 0.1)} if flt else DEF)
         now = 0
         have = False           # an exchange exists
         kind = T = R = None
@@ -363,11 +360,6 @@ class CHECK(core.Check):
             if "!rebound" in line:
                 return "after %s the stack no longer uses the queue objects the caller holds" % tok
             k, arg = parse(tok, flt)
-            if flt and k == "A":
-                arg = Fraction(arg)
-            if flt and k == "C":
-                arg = (arg[0], None if arg[1] is None else Fraction(arg[1]), None if arg[2] is None else Fraction(arg[2]),
-                       arg[3], arg[4])
             q, rest = line.split(" ", 1)
             queued = [] if q == "-" else [int(x) for x in q.split(",")]
             err = None if rest.startswith("ok") else rest.split(" ")[1]
@@ -416,41 +408,31 @@ class CHECK(core.Check):
                     continue
                 if err is not None:
                     return "process raised %s" % err
-                if flt and ((t0 is not None and T > 0 and abs(now - (t0 + T)) < EPS) or
-                            (last is not None and R > 0 and abs(now - (last + R)) < EPS)):
-                    # on a boundary up to rounding: no claim; what the call did decides how we go on
-                    if failed_flag:
-                        done = True
-                    if queued:
-                        last = now
-                    elif last is not None and R > 0 and abs(now - (last + R)) < EPS:
-                        last = None
-                    continue
                 timed_out = T > 0 and t0 is not None and now >= t0 + T
                 if T <= 0 and failed_flag:
                     return "timeout %s <= 0 but the exchange failed at %s" % (T, now)
                 if t0 is not None and T > 0:
                     if timed_out:
                         if queued:
-                            return "process at %d (timeout elapsed at %d) still queued %s" % (now, t0 + T, queued)
+                            return "process at %s (timeout elapsed at %s) still queued %s" % (now, t0 + T, queued)
                         if not failed_flag or not done_flag:
-                            return "process at %d >= %d: timeout elapsed but failed=%s done=%s" % (
+                            return "process at %s >= %s: timeout elapsed but failed=%s done=%s" % (
                                 now, t0 + T, failed_flag, done_flag)
                         done = True
                         continue
                     elif failed_flag:
-                        return "failed at %d before the timeout elapses at %d" % (now, t0 + T)
+                        return "failed at %s before the timeout elapses at %s" % (now, t0 + T)
                 if len(queued) > 1 or (queued and queued != [latest]):
                     return "process queued %s, latest message is %s" % (queued, latest)
                 if last is not None and (t0 is not None or T <= 0):
                     due = R > 0 and now >= last + R
                     if due:
                         if latest is not None and queued != [latest]:
-                            return ("redo interval %d elapsed at %d (now %d) but nothing retransmitted"
+                            return ("redo interval %s elapsed at %s (now %s) but nothing retransmitted"
                                     % (R, last + R, now))
                         last = now
                     elif queued:
-                        return ("retransmitted at %d although the redo interval %s (restarted at %d) has not elapsed"
+                        return ("retransmitted at %s although the redo interval %s (restarted at %s) has not elapsed"
                                 % (now, R, last))
                 elif queued:
                     last = now
